@@ -211,6 +211,20 @@ CLAIMED['C03'] = dict(
           "\\s and str.lower), tied by vm_compute correspondence on rendered names; class list read from the live namespace."),
     ref="DESIGN.md section 4 C03")
 
+CLAIMED['C04'] = dict(
+    technique="Coq proofs over R (field, nsatz, trig identities) that the closed forms and residuals regenerated from the solvers (translator T-E) imply closure of the junction chain regenerated from generic_elongation.py (T-D); root finders as oracles; independent re-trace on the implementation",
+    text=("Closing at z4 is equivalent to re-tracing from the centre and arriving at (usable_width/2, 0).  For all families without a "
+          "third radius closure is one explicit equation; the regenerated closed forms of solve_r124 (width or depth unknown), every "
+          "branch of solve_box_like with the even-ground-width formula, the three branches of DiamondGroove with its depth formula, and "
+          "any common root of the two regenerated residuals of solve_r123 imply it; a root of the r124 residual reproduces the requested "
+          "flank height and, the contour being closed, width and length; the three flank specifications are one vector along the flank; "
+          "the four formulas of the generic three-of-four resolution express one relation; alpha4 = arccos(1 - indent/(r2+r4)) gives the "
+          "indent relation.  Partial: solve_r1234, the r2-unknown branch of solve_r124 and the flank-given branch of solve_r123 have no "
+          "theorem; existence/uniqueness of roots (hence subset independence) is exercised by round trips, not proved."),
+    note=("Trusted: Coq kernel; Reals axioms; translators T-D and T-E (T-E validated against the real solvers: closed forms vs returned "
+          "values, residuals vanish at returned roots); root_scalar/root/fixed_point are not modelled."),
+    ref="DESIGN.md section 4 C04")
+
 NOT_YET = {}
 
 
